@@ -13,91 +13,125 @@ open Gen GameState
 
 /- Each agreement is tried by `rfl` first; if the source was rewritten up to associativity /
    commutativity of the bit operators the fallback unfolds both sides (callees through their own
-   agreement theorems) and closes the goal with `ac_rfl`. -/
+   agreement theorems) and closes the goal with `ac_rfl`; if the rewrite went beyond that (for
+   instance `x & a | x & b` became `x & (a | b)`), the last alternative compares the two sides bit
+   by bit: the bitwise operators are pushed to the bits and the remaining propositional identity in
+   the bits of the shifted operands is closed by `grind`. -/
+
+set_option linter.unusedSimpArgs false
+
+/-- bit-by-bit comparison of two bitboard expressions built from `&&&`, `|||`, `^^^`, `~~~`
+(all bitboard-valued helpers, generated and hand-written, are unfolded first: a rewritten helper may
+call other helpers than before) -/
+macro "bitwise_agree" : tactic =>
+  `(tactic| (simp only [Gen.Fn.influenced_squares, Gen.Fn.supported_pieces, Gen.Fn.both_player_supported_pieces,
+               Gen.Fn.both_player_unsupported_piece_bits, Gen.Fn.can_move_in_direction, Gen.Fn.shift_piece_in_direction,
+               Gen.Fn.player_piece_mask, Gen.Fn.trapped_piece_bits, Gen.Fn.curr_player_piece_mask,
+               Gen.Fn.opponent_piece_mask, Gen.Fn.threatened_pieces, Gen.Fn.curr_player_non_frozen_pieces,
+               influencedSquares, supportedPieces, bothPlayerSupportedPieces, bothPlayerUnsupportedPieceBits,
+               canMoveInDirection, shiftPieceInDirection, Board.playerPieceMask, Board.trappedPieceBits,
+               currPlayerPieceMask, opponentPieceMask, threatenedPieces, currPlayerNonFrozenPieces]
+             apply BitVec.eq_of_getLsbD_eq; intro i hi
+             simp only [BitVec.getLsbD_and, BitVec.getLsbD_or, BitVec.getLsbD_xor, BitVec.getLsbD_not]
+             grind))
 
 theorem agree_influenced_squares (x : BB) :
     Gen.Fn.influenced_squares x = influencedSquares x := by
   first
     | rfl
     | (simp only [Gen.Fn.influenced_squares, influencedSquares] <;> first | rfl | ac_rfl)
+    | bitwise_agree
 
 theorem agree_supported_pieces (x : BB) :
     Gen.Fn.supported_pieces x = supportedPieces x := by
   first
     | rfl
     | (simp only [Gen.Fn.supported_pieces, supportedPieces] <;> first | rfl | ac_rfl)
+    | bitwise_agree
 
 theorem agree_both_player_supported_pieces (b : Board) :
     Gen.Fn.both_player_supported_pieces b = bothPlayerSupportedPieces b := by
   first
     | rfl
     | (simp only [Gen.Fn.both_player_supported_pieces, bothPlayerSupportedPieces, agree_supported_pieces] <;> first | rfl | ac_rfl)
+    | bitwise_agree
 
 theorem agree_both_player_unsupported_piece_bits (b : Board) :
     Gen.Fn.both_player_unsupported_piece_bits b = bothPlayerUnsupportedPieceBits b := by
   first
     | rfl
     | (simp only [Gen.Fn.both_player_unsupported_piece_bits, bothPlayerUnsupportedPieceBits, agree_both_player_supported_pieces] <;> first | rfl | ac_rfl)
+    | bitwise_agree
 
 theorem agree_animal_is_on_trap (b : Board) :
     Gen.Fn.animal_is_on_trap b = animalIsOnTrap b := by
   first
     | rfl
     | (simp only [Gen.Fn.animal_is_on_trap, animalIsOnTrap] <;> first | rfl | ac_rfl)
+    | bitwise_agree
 
 theorem agree_can_move_in_direction (d : Dir) (b : Board) :
     Gen.Fn.can_move_in_direction d b = canMoveInDirection d b := by
   first
     | rfl
     | (simp only [Gen.Fn.can_move_in_direction, canMoveInDirection] <;> first | rfl | ac_rfl)
+    | bitwise_agree
 
 theorem agree_shift_piece_in_direction (x src : BB) (d : Dir) :
     Gen.Fn.shift_piece_in_direction x src d = shiftPieceInDirection x src d := by
   first
     | rfl
     | (simp only [Gen.Fn.shift_piece_in_direction, shiftPieceInDirection] <;> first | rfl | ac_rfl)
+    | bitwise_agree
 
 theorem agree_player_piece_mask (b : Board) (g : Bool) :
     Gen.Fn.player_piece_mask b g = b.playerPieceMask g := by
   first
     | rfl
     | (simp only [Gen.Fn.player_piece_mask, Board.playerPieceMask] <;> first | rfl | ac_rfl)
+    | bitwise_agree
 
 theorem agree_trapped_piece_bits (b : Board) :
     Gen.Fn.trapped_piece_bits b = b.trappedPieceBits := by
   first
     | rfl
     | (simp only [Gen.Fn.trapped_piece_bits, Board.trappedPieceBits, agree_animal_is_on_trap, agree_both_player_unsupported_piece_bits] <;> first | rfl | ac_rfl)
+    | bitwise_agree
 
 theorem agree_curr_player_piece_mask (s : GameState) (b : Board) :
     Gen.Fn.curr_player_piece_mask s.p1Turn b = s.currPlayerPieceMask b := by
   first
     | rfl
     | (simp only [Gen.Fn.curr_player_piece_mask, currPlayerPieceMask] <;> first | rfl | ac_rfl)
+    | bitwise_agree
 
 theorem agree_opponent_piece_mask (s : GameState) (b : Board) :
     Gen.Fn.opponent_piece_mask s.p1Turn b = s.opponentPieceMask b := by
   first
     | rfl
     | (simp only [Gen.Fn.opponent_piece_mask, opponentPieceMask] <;> first | rfl | ac_rfl)
+    | bitwise_agree
 
 theorem agree_threatened_pieces (g : Bool) (pred prey : BB) (b : Board) :
     Gen.Fn.threatened_pieces g pred prey b = threatenedPieces pred prey b := by
   first
     | rfl
     | (simp only [Gen.Fn.threatened_pieces, threatenedPieces, agree_influenced_squares] <;> first | rfl | ac_rfl)
+    | bitwise_agree
 
 theorem agree_curr_player_non_frozen_pieces (s : GameState) (b : Board) :
     Gen.Fn.curr_player_non_frozen_pieces s.p1Turn b = s.currPlayerNonFrozenPieces b := by
   first
     | rfl
     | (simp only [Gen.Fn.curr_player_non_frozen_pieces, currPlayerNonFrozenPieces, agree_opponent_piece_mask, agree_threatened_pieces, agree_supported_pieces] <;> first | rfl | ac_rfl)
+    | bitwise_agree
 
 theorem agree_is_their_piece (s : GameState) (bit : BB) (b : Board) :
     Gen.Fn.is_their_piece s.p1Turn bit b = s.isTheirPiece bit b := by
   first
     | rfl
     | (simp only [Gen.Fn.is_their_piece, isTheirPiece] <;> first | rfl | ac_rfl)
+    | bitwise_agree
 
 theorem agree_invalid_rabbit_moves (s : GameState) (d : Dir) (b : Board) :
     Gen.Fn.invalid_rabbit_moves s.p1Turn d b = s.invalidRabbitMoves d b := by
@@ -109,11 +143,13 @@ theorem agree_rabbit_at_goal (s : GameState) (b : Board) :
   first
     | rfl
     | (simp only [Gen.Fn.rabbit_at_goal, rabbitAtGoal] <;> first | rfl | ac_rfl)
+    | bitwise_agree
 
 theorem agree_lost_all_rabbits (s : GameState) (b : Board) :
     Gen.Fn.lost_all_rabbits s.p1Turn b = s.lostAllRabbits b := by
   first
     | rfl
     | (simp only [Gen.Fn.lost_all_rabbits, lostAllRabbits] <;> first | rfl | ac_rfl)
+    | bitwise_agree
 
 end Arimaa
